@@ -48,7 +48,7 @@ Next == (\E ch \in Alphabet : Type(ch)) \/ (\E n \in ColCounts, w \in Widths, g 
 Spec == Init /\ [][Next]_vars /\ WF_vars(CellStep \/ Finish)
 
 OnlyDocumentedFault == fault # "none" => cols = 0
-Ev == [ev |-> "c20", text |-> text, cols |-> cols, o |-> o, lg |-> gaps[1], mg |-> gaps[2], rg |-> gaps[3], cw |-> cw, wl |-> wl, rows |-> rows,
+Ev == [ev |-> "c20", text |-> text, cols |-> cols, o |-> o, lg |-> gaps[1], mg |-> gaps[2], rg |-> gaps[3], cw |-> cw, wl |-> wl, rows |-> rows, hk |-> << <<inner, cw, Len(wl), lpc>> >>,
        status |-> (IF fault = "none" THEN "ok" ELSE "panic")]
 AllOk(cs) == \A x \in 1..Len(cs) : cs[x].ok \/ (PrintT(<<"FAILED", cs[x].p, cs[x].c, cs[x].r>>) /\ FALSE)
 PropColumns == pc = "done" => AllOk(Judge_c20(Ev))
